@@ -59,6 +59,7 @@ class Campaign:
         self.exhaustive = None
         self.min_nontrivial = min_nontrivial
         self.harness_errors = []
+        self.write_evidence = True   # False in --replay mode: a replay is not a campaign
         self.findings = load_known_findings(pid)
         self.open_findings = [f for f in self.findings if f.get("status") == "open"]
         self.fixed_findings = [f for f in self.findings if f.get("status") == "fixed"]
@@ -250,7 +251,7 @@ class Campaign:
             "wall_s": round(wall, 3),
             "violations": len(violations),
         }
-        edir = os.path.join(env.VERIF_ROOT, "evidence")
+        edir = os.path.join(env.VERIF_ROOT, "evidence" if self.write_evidence else os.path.join("out", "replay-evidence"))
         os.makedirs(edir, exist_ok=True)
         tmp = os.path.join(edir, ".%s.%d.tmp" % (self.pid, os.getpid()))
         with open(tmp, "w") as fp:
